@@ -144,7 +144,7 @@ type FPProbe struct {
 	Vlan   int    `json:"vlan"`   // 0 untagged, 1 802.1Q, 2 QinQ
 	OptLen int    `json:"optlen"` // bytes of option area after the magic cookie
 	IHL    int    `json:"ihl"`
-	Relay  bool   `json:"relay"`  // giaddr + option 82 circuit-id
+	Relay  bool   `json:"relay"` // giaddr + option 82 circuit-id
 	Bcast  bool   `json:"bcast"`
 	Layout string `json:"layout"` // "first" (53 first) | "pad" (one pad byte before 53)
 }
@@ -153,7 +153,7 @@ func fpBattery(nclients int) []FPProbe {
 	var out []FPProbe
 	for c := 1; c <= nclients+1; c++ {
 		out = append(out,
-			FPProbe{C: c, Msg: "DISCOVER", OptLen: 60, IHL: 5, Layout: "first"},  // classic 300-byte BOOTP
+			FPProbe{C: c, Msg: "DISCOVER", OptLen: 60, IHL: 5, Layout: "first"}, // classic 300-byte BOOTP
 			FPProbe{C: c, Msg: "REQOWN", OptLen: 60, IHL: 5, Layout: "first"},
 			FPProbe{C: c, Msg: "DISCOVER", OptLen: 100, IHL: 5, Layout: "first"},
 			FPProbe{C: c, Msg: "REQOWN", OptLen: 100, IHL: 5, Layout: "pad"},
@@ -352,7 +352,7 @@ func (in *inst) fpSweep() map[string]any {
 	for id := 0; id < 65536; id++ {
 		f := append([]byte{}, base...)
 		binary.BigEndian.PutUint16(f[18:], uint16(id)) // IP identification
-		f[15] = byte(id >> 3)                         // TOS varies along
+		f[15] = byte(id >> 3)                          // TOS varies along
 		f[24], f[25] = 0, 0
 		binary.BigEndian.PutUint16(f[24:], ipChecksum(f[14:34]))
 		v, after, _, err := st.drv.Run("xdp", f, 0)
